@@ -6,6 +6,7 @@ import (
 	"fmt"
 	"os"
 	"path/filepath"
+	"regexp"
 	"sort"
 	"strings"
 	"time"
@@ -182,6 +183,21 @@ func (s *sentinel) changed() string {
 	return ""
 }
 
+// settle waits until the directory has stopped changing: a process started by an allowed io.popen or
+// os.execute does its work on its own time, and what it does must be billed to the call that started
+// it, not to whichever call happens to be checked when it gets round to it.
+func (s *sentinel) settle() {
+	prev := fmt.Sprint(s.snapshot())
+	for i := 0; i < 20; i++ {
+		time.Sleep(15 * time.Millisecond)
+		cur := fmt.Sprint(s.snapshot())
+		if cur == prev && i >= 1 {
+			return
+		}
+		prev = cur
+	}
+}
+
 func (s *sentinel) restore() {
 	os.Chdir("/var/tmp")
 	os.Unsetenv("TMPDIR")
@@ -195,6 +211,40 @@ type sysTracer struct {
 	f   *os.File
 	seq int
 	buf []byte
+	// processes started outside the windows (by calls that were allowed to) and their descendants: they
+	// run on their own time and what they do is not the doing of the call being watched
+	children map[string]bool
+}
+
+var reChildPid = regexp.MustCompile(`^(\d+) +(?:clone3?|fork|vfork)\(.*\) = (\d+)$`)
+
+// learn records the processes created in the given part of the trace; inWindow tells whether creations
+// by the worker itself count (they do not: those are what the window is there to catch).
+func (t *sysTracer) learn(lines []string, inWindow bool) {
+	if t.children == nil {
+		t.children = map[string]bool{}
+	}
+	for _, l := range lines {
+		m := reChildPid.FindStringSubmatch(strings.TrimSpace(l))
+		if m == nil || strings.Contains(l, "CLONE_THREAD") {
+			continue
+		}
+		if t.children[m[1]] || !inWindow {
+			t.children[m[2]] = true
+		}
+	}
+}
+
+func (t *sysTracer) own(lines []string) []string {
+	var out []string
+	for _, l := range lines {
+		f := strings.Fields(l)
+		if len(f) > 0 && t.children[f[0]] {
+			continue
+		}
+		out = append(out, l)
+	}
+	return out
 }
 
 func openTracer() *sysTracer {
@@ -243,11 +293,14 @@ func (t *sysTracer) end() []string {
 	if i < 0 || j < 0 || j < i {
 		return nil
 	}
+	t.learn(strings.Split(text[:i], "\n"), false)
 	lines := strings.Split(text[i:j], "\n")
 	if len(lines) < 2 {
 		return []string{}
 	}
-	return lines[1 : len(lines)-1]
+	lines = lines[1 : len(lines)-1]
+	t.learn(lines, true)
+	return t.own(lines)
 }
 
 // classify tells what a traced call did that an iosafe context must not do ("" if nothing).
@@ -634,6 +687,9 @@ func runFlags(ctx *core.RunCtx) {
 					ctx.Fail("C08", "C08.P", "panic", "Go panic: %v; %s", pan, where)
 					return
 				}
+			}
+			if strings.Contains(fn.path, "popen") || strings.Contains(fn.path, "execute") {
+				sen.settle() // (after the traced window has been read: settling looks at the directory itself)
 			}
 			if ch := sen.changed(); ch != "" {
 				switch {
